@@ -60,6 +60,9 @@ Definition token_eqb (a b : token) : bool :=
   | _, _ => false
   end.
 
+Definition tok_is_not (t : token) : bool := match t with TNot => true | _ => false end.
+Definition tok_is_in (t : token) : bool := match t with TIn => true | _ => false end.
+
 (* the kind of a token = its variant with the payload erased *)
 Definition kind (t : token) : token :=
   match t with
